@@ -132,7 +132,7 @@ class CHECK(vlib.Check):
             "_maxPoolSize 0..4; after EVERY operation the destruction/recycle/obtain events in order, every object's state, "
             "count, payload, members and birth/death counters, the stack, and the pool's slab order, free lists, "
             "_numNodesInUse, _nextIndex arrays and _curPoolSize are compared with the extracted model; the harness's own "
-            "ideal reference graph is the oracle.  Multi-threaded histories (2-3 worker threads started with copies of the main thread's references, random programs x random and exhaustive schedules) run under the controlled scheduler (decision points: the AtomicCounter increment/decrement and Mutex lock hooks); the sequence (thread resumed, atomic step executed) the counts of all objects each time a thread parks before an atomic operation, and the complete final state must equal the model's run of the same schedule (deterministic: one thread runs at a time, every decision comes from the case text).  Non-trivial = the history stores into a member slot and later drops or "
+            "ideal reference graph is the oracle.  Multi-threaded histories (2-3 worker threads started with copies of the main thread's references, random programs x random and exhaustive schedules) run under the controlled scheduler (decision points: the AtomicCounter increment/decrement and Mutex lock hooks); decision points also at the start of a pooled object's reset-to-default (Item::operator=); the sequence (thread resumed, atomic step executed) the counts of all objects each time a thread parks before an atomic operation, and the complete final state must equal the model's run of the same schedule (deterministic: one thread runs at a time, every decision comes from the case text).  Non-trivial = the history stores into a member slot and later drops or "
             "overwrites a reference (so a release can cascade), or obtains from the pool more objects than one slab holds.") % (S, K)
 
     def gen_cases(self, rng, tier):
@@ -154,7 +154,11 @@ class CHECK(vlib.Check):
                            ("S2:0", "np:0/rs:s0/rs:s0;np:0;rs:s0/rs:s0;np:1;rs:s1"),
                            ("S1:0", "np:0/rs:s0/rs:s0;np:1;rs:s1/rs:s0;np:1;rs:s1"),
                            ("S2:1", "nh:0/rs:s0/al:s1:s0;as:s1:s0;rs:s1;rs:s0/al:s0:s0;as:s1:s0;rs:s0;rs:s1"),
-                           ("S2:0", "np:0;np:1;as:m0.0:s1;rs:s1/rs:s0;rs:s1/as:s0:m0.0;rs:s0/as:s1:m0.0;rs:s0;rs:s1")):
+                           ("S2:0", "np:0;np:1;as:m0.0:s1;rs:s1/rs:s0;rs:s1/as:s0:m0.0;rs:s0/as:s1:m0.0;rs:s0;rs:s1"),
+                           # one worker drops the last reference to an object with state (payload, child) while the other obtains
+                           # from the same pool: the object must be reset BEFORE it is back on the free list
+                           ("S2:0", "np:0;np:1;as:m0.0:s1;rs:s1;sv:0:7/rs:s0/rs:s0/rs:s0;np:1;sv:1:5;np:2;rs:s1;rs:s2"),
+                           ("S2:2", "np:0;sv:0:7/rs:s0/rs:s0/rs:s0;np:1;np:2;rs:s1;rs:s2")):
             for bits in range(512):
                 out.append(("sched-exhaustive", "%s:%d:%s|%s" % (hdr, S, ".".join(str((bits >> j) & 1) for j in range(9)), progs)))
         # directed: the list-advance idiom (F11) over chains of 2..4 objects, heap and pooled
